@@ -18,6 +18,11 @@ use self::windows::ExecutableMemory;
 pub const INITIAL_MEMORY_SIZE: usize = 0x800000;
 pub const MEMORY_MINIMUM_SIZE: usize = 0x1000;
 pub const MEMORY_SIZE_INCREASE: usize = 0x1000;
+/// The cache is append-only and cannot grow. When less than this is left, all
+/// translated blocks are dropped and translation starts over. A block comes
+/// from at most one 16KB ROM bank, and no instruction expands to more than
+/// ~120 bytes of host code in it, so 2MB always fits the next block.
+pub const MEMORY_FLUSH_THRESHOLD: usize = 0x200000;
 
 pub struct CodeCache {
   exec_memory: ExecutableMemory,
@@ -26,6 +31,8 @@ pub struct CodeCache {
 
   prologue_location: usize,
   epilogue_location: usize,
+  /// Where translated blocks begin, right behind the prologue and epilogue
+  first_block_location: usize,
 }
 
 impl CodeCache {
@@ -37,11 +44,20 @@ impl CodeCache {
 
       prologue_location: 0,
       epilogue_location: 0,
+      first_block_location: 0,
     };
     cache.write_prelude_block();
     cache.write_epilogue_block();
+    cache.first_block_location = cache.write_cursor;
 
     cache
+  }
+
+  /// Forget every translated block and reuse the memory from the start. The
+  /// bank each region is keyed with is kept.
+  pub fn flush(&mut self) {
+    self.code_blocks.clear();
+    self.write_cursor = self.first_block_location;
   }
 
   pub fn write_prelude_block(&mut self) {
@@ -137,6 +153,10 @@ impl CodeCache {
   }
 
   pub fn translate_code_block(&mut self, code: &Box<[u8]>, ip: usize, mem: *const MemoryAreas) -> usize {
+    // Make sure the next block fits: start over when the memory is nearly used up
+    if self.exec_memory.get_memory_area().len() - self.write_cursor < MEMORY_FLUSH_THRESHOLD {
+      self.flush();
+    }
     let mut write_cursor = self.write_cursor;
     let starting_offset = write_cursor;
 
